@@ -168,6 +168,9 @@ public:
     // Computation
     Index compute(Index maxit = 1000, Scalar tol = 1e-10)
     {
+        // Singular vectors cached by matrix_U()/matrix_V() belong to the previous run
+        m_evecs.resize(0, 0);
+
         m_eigs->init();
         m_nconv = m_eigs->compute(SortRule::LargestAlge, maxit, tol);
 
